@@ -304,8 +304,14 @@ func (g *Gen) statement(depth int) {
 		for g.intn(3, "elseif") == 0 {
 			g.newline()
 			g.emit("elseif")
-			if g.cfg.Patterns && g.intn(3, "dupCond") == 0 {
+			dc := 9
+			if g.cfg.Patterns {
+				dc = g.intn(4, "dupCond")
+			}
+			if dc == 0 {
 				g.dupToks(condFrom, condTo)
+			} else if dc == 1 && g.dupToksNear(condFrom, condTo) {
+				// near miss of the first condition
 			} else {
 				g.exp(g.cfg.ExpDepth)
 			}
@@ -451,6 +457,69 @@ func (g *Gen) dupToks(from, to int) {
 		}
 		g.Toks = append(g.Toks, tk)
 	}
+}
+
+var nearOps = map[string]string{"==": "~=", "~=": "==", "<": "<=", "<=": "<", ">": ">=", ">=": ">", "and": "or", "or": "and"}
+
+// dupToksNear copies the token range like dupToks but changes exactly one leaf of the copy (a field or
+// method name, a comparison / logical operator, a decimal literal), so that the copy is a near miss of
+// the original: the same shape, one token different. Reports false (nothing emitted) when the range
+// has no such leaf.
+func (g *Gen) dupToksNear(from, to int) bool {
+	var cands []int
+	for k := from; k < to; k++ {
+		tk := g.Toks[k]
+		switch {
+		case k > from && tk.Var == VarNone && (g.Toks[k-1].Text == "." || g.Toks[k-1].Text == ":") && isPlainName(tk.Text):
+			cands = append(cands, k)
+		case nearOps[tk.Text] != "":
+			cands = append(cands, k)
+		case isDecimal(tk.Text):
+			cands = append(cands, k)
+		}
+	}
+	if len(cands) == 0 {
+		return false
+	}
+	pick := cands[g.intn(len(cands), "nearLeaf")]
+	start := len(g.Toks)
+	g.dupToks(from, to)
+	tk := &g.Toks[start+pick-from]
+	switch {
+	case nearOps[tk.Text] != "":
+		tk.Text = nearOps[tk.Text]
+	case isDecimal(tk.Text):
+		tk.Text = tk.Text + "7"
+	default:
+		for _, f := range fieldPool {
+			if f != tk.Text {
+				tk.Text = f
+				break
+			}
+		}
+	}
+	return true
+}
+
+func isDecimal(s string) bool {
+	if s == "" || len(s) > 6 {
+		return false
+	}
+	for i := 0; i < len(s); i++ {
+		if s[i] < '0' || s[i] > '9' {
+			return false
+		}
+	}
+	return true
+}
+
+func isPlainName(s string) bool {
+	for _, f := range fieldPool {
+		if f == s {
+			return true
+		}
+	}
+	return false
 }
 
 func (g *Gen) bindOf(name string) int {
@@ -634,6 +703,15 @@ func (g *Gen) assignStat() {
 			delete(g.banned, nm)
 		}
 		return
+	}
+	if g.cfg.Patterns && !g.cfg.NoSameNameInit && g.intn(12, "selfAssignNear") == 0 {
+		// near miss of a self-assignment: the target list repeated with one leaf changed
+		if g.dupToksNear(statStart, len(g.Toks)-1) {
+			for _, nm := range tnames {
+				delete(g.banned, nm)
+			}
+			return
+		}
 	}
 	nv := n
 	if g.cfg.Patterns && g.intn(4, "arity") == 0 {
@@ -909,6 +987,10 @@ func (g *Gen) exp(d int) {
 		switch pk {
 		case 0, 1:
 			g.dupToks(from, to) // identical operands
+		case 5:
+			if !g.dupToksNear(from, to) { // near miss of the left operand
+				g.operand(d - 1)
+			}
 		case 2, 4:
 			g.emit([]string{"true", "false"}[g.intn(2, "boolConst")])
 		case 3:
